@@ -369,4 +369,95 @@ ASSUMPTIONS = [
     "element identity is observed through instrumented element types (token in the low bytes, canary in the rest)",
 ]
 
-STATIC = {}
+
+# ======================================================================================
+# static (compile-time) properties
+# ======================================================================================
+def static_evidence(pid, tier, seed, t0, level, thms, extra, violations):
+    ev = dict(property_id=pid, tier=tier, seed=seed, level=level,
+              coverage=dict(obligations=extra.pop("obligations"), discharged=extra.pop("discharged"),
+                            checker_cmd="cd /verif/coq && make && coqc -Q AV AV AV/Props/%s.v (after regenerating AV/Gen from /repo)" % pid,
+                            trusted_base=TRUSTED_BASE + ["rustc as the translator from declarations to verdicts; the probe generators (probes/, avcheck/c15.py, avcheck/c16.py)"],
+                            theorems=[dict(name=t[0], closed_under_global_context=t[1], assumptions=t[2]) for t in thms],
+                            **extra),
+              assumptions=["auto-trait resolution and borrow checking depend on a user backend / element type only through the capabilities enumerated in the domain"],
+              wall_s=round(time.time() - t0, 1), violations=len(violations))
+    os.makedirs(os.path.join(ROOT, "evidence"), exist_ok=True)
+    json.dump(ev, open(os.path.join(ROOT, "evidence", pid + ".json"), "w"), indent=1)
+
+def check_c15(pid, tier, seed, replay, t0):
+    from . import c15
+    os.system("rm -f '%s'/replays/%s-*" % (ROOT, pid))
+    known = [k for k in load_known() if k.get("property") == pid and k.get("status") == "known"]
+    violations, broken = [], []
+    table, bad, rej, rej_bad = {}, [], [], []
+    try:
+        table = c15.regenerate()
+        ncells = c15.write_table(table)
+    except core.BuildBroken as e:
+        broken.append("translator corr.C15.table: %s\n%s" % (e.what, e.output[-1500:]))
+        ncells = 0
+    coq_s = core.ensure_coq()
+    forb = core.grep_forbidden()
+    thms = []
+    try:
+        thms, _ = theorem_status(pid)
+        thms = thms or []
+    except core.ObligationBroken as e:
+        broken.append("theorem C15_table_ok (AV/Props/C15.v) no longer checks against the regenerated table:\n" + e.output[-800:])
+    # search for the failing input: evaluate the rule on every regenerated cell
+    for key, v in sorted(table.items()):
+        ok, why = c15.rule(key, v)
+        if not ok:
+            bad.append((key, v, why))
+    if table:
+        try:
+            rej = c15.run_rejections()
+            rej_bad = [r for r in rej if r[1] != r[2]]
+        except core.BuildBroken as e:
+            broken.append("corr.C15.reject: %s" % e.what)
+    d = os.path.join(ROOT, "replays"); os.makedirs(d, exist_ok=True)
+    seen = set()
+    for key, v, why in bad:
+        kind, tr, m, t, trait = key.split("|")
+        cls = (kind, trait)
+        if cls in seen:
+            continue
+        seen.add(cls)
+        similar = len([b for b in bad if (b[0].split("|")[0], b[0].split("|")[4]) == cls])
+        path = os.path.join(d, "%s-%s-%s.json" % (pid, kind, trait))
+        json.dump(dict(property=pid, cell=key, meaning="kind|constraint set|backend|element class|trait", compiler_verdict=bool(v), rule=why,
+                       similar_cells=similar, how_to_replay="./check C15 --replay %s  (re-runs the probe program probes/c15 against /repo and re-evaluates this cell)" % path),
+                  open(path, "w"), indent=1)
+        print("  failing input (%d similar): cell=%s verdict=%s : %s" % (similar, key, bool(v), why))
+        violations.append("VIOLATION property=%s replay=%s" % (pid, path))
+    for name, must, did, code in rej_bad[:10]:
+        path = os.path.join(d, "%s-reject-%s.json" % (pid, name))
+        src = [p for p in c15.reject_programs() if p[0] == name][0][2]
+        json.dump(dict(property=pid, program=src, must_compile=must, compiled=did, error=code), open(path, "w"), indent=1)
+        print("  failing input: program %s must_compile=%s compiled=%s" % (name, must, did))
+        violations.append("VIOLATION property=%s replay=%s" % (pid, path))
+    if forb:
+        broken.append("forbidden words: " + "; ".join(forb[:5]))
+    open_thms = [t for t in thms if not t[1]]
+    if open_thms:
+        broken.append("theorems not closed: " + ", ".join(t[0] for t in open_thms))
+    if broken and not violations:
+        path = os.path.join(d, "%s-broken-obligation.json" % pid)
+        json.dump(dict(property=pid, broken=broken, note="no failing cell was found by the search"), open(path, "w"), indent=1)
+        violations.append("VIOLATION property=%s replay=%s no-failing-input-found" % (pid, path))
+    for v in violations:
+        print(v)
+    nthm = len(thms)
+    static_evidence(pid, tier, seed, t0, "proof", thms, dict(
+        obligations=nthm + 2 + (1 if not thms else 0), discharged=len([t for t in thms if t[1]]) + (1 if table and not bad else 0) + (1 if rej and not rej_bad else 0),
+        cells=len(table), cells_in_coq_table=ncells, violating_cells=len(bad), rejection_programs=len(rej), rejection_disagreements=len(rej_bad),
+        evaluations=len(table) + len(rej), distinct_nontrivial=len(table) + len(rej),
+        rule="every cell of the finite domain (type kind x constraint set x backend capability class x element class x trait) is decided by rustc (impls! constants / value probes) and by the Coq rule; rejection programs are compiled one by one",
+        samples=[k + "=" + str(v) for k, v in list(sorted(table.items()))[:: max(1, len(table) // 6)]][:8] or ["<none>"],
+        exhaustive=True, coq_build_s=round(coq_s, 1)), violations)
+    print("%s: %d cells (%d violating), %d rejection programs (%d wrong), theorems %d/%d closed, %.0fs" %
+          (pid, len(table), len(bad), len(rej), len(rej_bad), len([t for t in thms if t[1]]), len(thms), time.time() - t0))
+    return 1 if violations else 0
+
+STATIC = {"C15": check_c15}
